@@ -225,6 +225,14 @@ def chains(rep):
             steps += [{"op": "set_text", "s": "s", "text": t}, {"op": "execute_session", "s": "s"}]
         cases.append({"id": "ch%d.sess" % ci, "cfg": CFG, "steps": steps})
         metas.append((c, texts, "session"))
+        if rhs["form"] == "date_shift" and f in ("date_diff", "date_shift"):
+            # a calendar date held by a name stays that calendar date when the default zone is changed between the two lines
+            z = ["GMT+5:30", "EST", "GMT-11:30"][ci % 3]
+            steps = [{"op": "session_new", "s": "s"}, {"op": "set_language", "s": "s", "lang": "en"},
+                     {"op": "set_text", "s": "s", "text": texts[0]}, {"op": "execute_session", "s": "s"}, {"op": "set_tz", "v": z},
+                     {"op": "set_text", "s": "s", "text": texts[1]}, {"op": "execute_session", "s": "s"}]
+            cases.append({"id": "ch%d.zone" % ci, "cfg": CFG, "fresh": True, "steps": steps})
+            metas.append((c, texts, "session, zone changed in between"))
     obs = run_harness_stable_day(cases, "c03.chain", jobs=8)
     for (c, texts, mode), o in zip(metas, obs):
         steps = o.get("steps") or []
@@ -233,8 +241,8 @@ def chains(rep):
             slots = ss[1] if ss and ss[0] and len(ss[1]) == 2 else [None, None]
         else:
             slots = []
-            for i in range(2):
-                ss = proj.slots_of_step(steps[2 + 2 * i + 1]) if len(steps) > 2 + 2 * i + 1 else None
+            for k in ((3, 6) if mode.endswith("in between") else (3, 5)):
+                ss = proj.slots_of_step(steps[k]) if len(steps) > k else None
                 slots.append(ss[1][0] if ss and ss[0] and len(ss[1]) == 1 else None)
         rep.case(["chain", texts, mode], True)
         rep.replayed += 1
